@@ -77,3 +77,54 @@ func VerifC14_put_indexed_on_array() {
 	}
 	verifReach("C14/put/end")
 }
+
+// x[i][j] = v and x[i]["k"] = v on an array of length 0..2 for small symbolic i, j (auto-create of the
+// inner collection, auto-extend of the outer one): the result holds v at that place, the gaps are
+// JSON null, and the process-wide shared values (NULL, ABSENT, VOID) are never modified in place.
+func VerifC14_put_indexed_two_levels() {
+	l := verifChoice("len", 3)
+	var arr []*Mlrval
+	for k := 0; k < l; k++ {
+		arr = append(arr, FromInt(int64(10+k)))
+	}
+	base := FromArray(arr)
+	i := verifInt64("i")
+	verifAssume(i >= -3 && i <= 5)
+	var second *Mlrval
+	inner := verifChoice("inner_index_kind", 2)
+	j := verifInt64("j")
+	verifAssume(j >= -2 && j <= 3)
+	if inner == 0 {
+		second = FromInt(j)
+	} else {
+		second = FromString("k")
+	}
+	err := base.PutIndexed([]*Mlrval{FromInt(i), second}, FromInt(99))
+	verifAssert(NULL.Type() == MT_NULL && NULL.intf == nil, "C14/put2/the-shared-null-is-never-modified")
+	verifAssert(ABSENT.IsAbsent() && VOID.IsVoid(), "C14/put2/the-shared-absent-and-empty-are-never-modified")
+	if err == nil && base.IsArray() {
+		out := base.intf.([]*Mlrval)
+		ic := verifConcretize(i, 16)
+		z := ic - 1
+		if ic < 0 {
+			z = int64(len(out)) + ic
+		}
+		verifAssert(z >= 0 && z < int64(len(out)), "C14/put2/slot-exists-after-a-successful-assignment")
+		if z >= 0 && z < int64(len(out)) {
+			slot := out[z]
+			if inner == 1 {
+				verifAssert(slot.IsMap(), "C14/put2/string-index-auto-creates-a-map")
+				if slot.IsMap() {
+					v := slot.intf.(*Mlrmap).Get("k")
+					verifAssert(v != nil && v.IsInt() && v.intf.(int64) == 99, "C14/put2/value-stored")
+				}
+			} else {
+				verifAssert(slot.IsArray(), "C14/put2/int-index-auto-creates-an-array")
+			}
+			for k := int64(l); k < z; k++ {
+				verifAssert(out[k].IsNull() && out[k] != slot, "C14/put2/gaps-are-json-null")
+			}
+		}
+	}
+	verifReach("C14/put2/end")
+}
